@@ -25,7 +25,12 @@ Calls == {"step", "finish", "build", "build_trunk", "set_argument", "set_logic",
 
 Init0(cfg) ==
   [hasarg |-> cfg.mode # "noarg", trunk |-> cfg.mode = "auto", started |-> cfg.mode = "auto",
-   finished |-> FALSE, pflag |-> TRUE, k |-> 0, ran |-> FALSE, timedout |-> FALSE]
+   finished |-> FALSE, pflag |-> TRUE, k |-> 0, ran |-> FALSE, timedout |-> FALSE,
+   \* which argument object the tableau holds: 0 none, 1 the constructor's, j + 1 the one passed by the
+   \* j-th set_argument call (nset counts those calls, capped so that the model stays finite)
+   argid |-> IF cfg.mode # "noarg" THEN 1 ELSE 0, nset |-> 0]
+NSetCap == 5
+Bump(st) == IF st.nset < NSetCap THEN st.nset + 1 ELSE NSetCap
 
 LimitActive(cfg) == cfg.limit > 0
 Exceeded(cfg, st) == LimitActive(cfg) /\ st.k >= cfg.limit
@@ -55,10 +60,10 @@ Do(cfg, st, call) ==
          IF st.trunk \/ ~st.hasarg \/ st.started THEN Ret(st, "raise:IllegalStateError")
          ELSE Ret([st EXCEPT !.trunk = TRUE, !.started = TRUE], "self")
     [] call = "set_argument" ->
-         IF st.started THEN Ret(st, "raise:IllegalStateError")
+         IF st.started THEN Ret([st EXCEPT !.nset = Bump(st)], "raise:IllegalStateError")
          ELSE IF cfg.mode = "noarg"       \* auto_build_trunk is on: the trunk is built at once
-              THEN Ret([st EXCEPT !.hasarg = TRUE, !.trunk = TRUE, !.started = TRUE], "ok")
-              ELSE Ret([st EXCEPT !.hasarg = TRUE], "ok")
+              THEN Ret([st EXCEPT !.hasarg = TRUE, !.trunk = TRUE, !.started = TRUE, !.nset = Bump(st), !.argid = Bump(st) + 1], "ok")
+              ELSE Ret([st EXCEPT !.hasarg = TRUE, !.nset = Bump(st), !.argid = Bump(st) + 1], "ok")
     [] call = "set_logic" ->
          IF st.started THEN Ret(st, "raise:IllegalStateError") ELSE Ret(st, "ok")
     [] call = "add_rule" ->
@@ -73,7 +78,7 @@ Obs(cfg, st) ==
   [finished |-> B2I(st.finished), completed |-> B2I(Completed(st)), premature |-> B2I(Premature(st)),
    valid   |-> IF Completed(st) /\ st.hasarg THEN B2I(AllClosed(cfg, st)) ELSE -1,
    invalid |-> IF Completed(st) /\ st.hasarg THEN 1 - B2I(AllClosed(cfg, st)) ELSE -1,
-   history_len |-> st.k, started |-> B2I(st.started)]
+   history_len |-> st.k, started |-> B2I(st.started), argid |-> st.argid]
 
 (***************************************************************************)
 (* Contract clauses of C17, on observations  a --call/ret--> b.            *)
@@ -90,8 +95,11 @@ FinishedIsFrozen(a, b, call, ret) ==
   (a.finished = 1 /\ call \in {"step", "finish", "build"}) =>
      /\ b = a
      /\ ret = (IF call = "step" THEN "none" ELSE "self")
-SettersRefusedAfterStart(a, b, call, ret) ==
-  (a.started = 1 /\ call \in {"set_argument", "set_logic", "add_rule", "build_trunk"}) =>
+\* `started` is the history-defined notion (the trunk has been built or a step applied: st.started of the
+\* model, which is driven by the calls made), not the implementation's flag; b = a includes the argument
+\* object the tableau reports (argid) -- a refused setter must not have replaced it
+SettersRefusedAfterStart(started, a, b, call, ret) ==
+  (started /\ call \in {"set_argument", "set_logic", "add_rule", "build_trunk"}) =>
      (ret = "raise:IllegalStateError" /\ b = a)
 NoArgumentNoVerdict(hasarg, b) == ~hasarg => (b.valid = -1 /\ b.invalid = -1)
 TimeoutLeavesFinished(b, ret) == ret = "raise:ProofTimeoutError" => (b.finished = 1 /\ b.premature = 1)
@@ -100,30 +108,30 @@ LimitStopsPremature(cfg, a, b, call, ret) ==
      (b.finished = 1 /\ b.premature = 1 /\ b.history_len = a.history_len)
 \* a limit larger than the natural length (or None / 0 / negative) changes nothing:
 \* building from the fresh started tableau completes with the unlimited verdict
-LargeLimitChangesNothing(cfg, a, b, call, ret) ==
-  (call = "build" /\ a.finished = 0 /\ a.started = 1 /\ cfg.tmo = 0 /\ (cfg.limit <= 0 \/ cfg.limit > cfg.n)) =>
+LargeLimitChangesNothing(cfg, started, a, b, call, ret) ==
+  (call = "build" /\ a.finished = 0 /\ started /\ cfg.tmo = 0 /\ (cfg.limit <= 0 \/ cfg.limit > cfg.n)) =>
      (ret = "self" /\ b.completed = 1 /\ b.history_len = cfg.n /\ b.valid = cfg.valid)
 \* tmo = 2: a time limit that no single step exceeds but the whole build exceeds at least twice over
 \* (measured by the harness with its virtual clock): building from the fresh started tableau must time out
-CumulativeTimeoutFires(cfg, a, b, call, ret) ==
-  (cfg.tmo = 2 /\ call = "build" /\ a.finished = 0 /\ a.started = 1 /\ a.history_len = 0) =>
+CumulativeTimeoutFires(cfg, started, a, b, call, ret) ==
+  (cfg.tmo = 2 /\ call = "build" /\ a.finished = 0 /\ started /\ a.history_len = 0) =>
      (ret = "raise:ProofTimeoutError" /\ b.finished = 1 /\ b.premature = 1)
 OnlyDocumentedErrors(ret) == ret \in {"none", "entry", "self", "ok", "raise:IllegalStateError", "raise:ProofTimeoutError"}
 HistoryMonotone(a, b) == b.history_len >= a.history_len /\ (a.finished = 1 => b.finished = 1)
 
-ClauseFail(cfg, hasargAfter, a, b, call, ret) ==
+ClauseFail(cfg, hasargAfter, startedBefore, a, b, call, ret) ==
   IF ~OnlyDocumentedErrors(ret) THEN "OnlyDocumentedErrors"
   ELSE IF ~ThreeValued(b) THEN "ThreeValued"
   ELSE IF ~PrematureHasNoVerdict(b) THEN "PrematureHasNoVerdict"
   ELSE IF ~HistoryWithinLimit(cfg, b) THEN "HistoryWithinLimit"
   ELSE IF ~HistoryMonotone(a, b) THEN "HistoryMonotone"
   ELSE IF ~FinishedIsFrozen(a, b, call, ret) THEN "FinishedIsFrozen"
-  ELSE IF ~SettersRefusedAfterStart(a, b, call, ret) THEN "SettersRefusedAfterStart"
+  ELSE IF ~SettersRefusedAfterStart(startedBefore, a, b, call, ret) THEN "SettersRefusedAfterStart"
   ELSE IF ~NoArgumentNoVerdict(hasargAfter, b) THEN "NoArgumentNoVerdict"
   ELSE IF ~TimeoutLeavesFinished(b, ret) THEN "TimeoutLeavesFinished"
   ELSE IF ~LimitStopsPremature(cfg, a, b, call, ret) THEN "LimitStopsPremature"
-  ELSE IF ~LargeLimitChangesNothing(cfg, a, b, call, ret) THEN "LargeLimitChangesNothing"
-  ELSE IF ~CumulativeTimeoutFires(cfg, a, b, call, ret) THEN "CumulativeTimeoutFires"
+  ELSE IF ~LargeLimitChangesNothing(cfg, startedBefore, a, b, call, ret) THEN "LargeLimitChangesNothing"
+  ELSE IF ~CumulativeTimeoutFires(cfg, startedBefore, a, b, call, ret) THEN "CumulativeTimeoutFires"
   ELSE ""
 
 =============================================================================
